@@ -38,17 +38,21 @@ Phases == {"assoc_rq",      \* acceptor, Sta2: ARTIM (provider thread) and the A
            "dimse_rsp",     \* requestor, Sta6: DIMSE timeout in the user's send_c_*() call
            "dataset",       \* acceptor, Sta6: command set received, data set PDUs outstanding: network timer
            "release_rp",    \* Sta7: ACSE timeout in the user's release() call
+           "release_collision", \* requestor, Sta11: release() called, the peer sent its own A-RELEASE-RQ instead of answering, got
+                            \* this side's A-RELEASE-RP and then stays silent: ACSE timeout in the user's release() call
            "closing",       \* Sta13: A-ABORT / A-ASSOCIATE-RJ / A-RELEASE-RP sent, waiting for the peer to close: ARTIM (provider thread)
            "tls"}           \* TLS handshake right after the TCP connection: requestor under the connection timeout (provider
                             \* thread, AE-1); acceptor inside AssociationServer.get_request, i.e. in the listener's accept loop
 PhaseOK(r, p) == CASE p = "assoc_rq" -> r = "acceptor" [] p = "assoc_ac" -> r = "requestor"
-                   [] p = "dimse_rsp" -> r = "requestor" [] p = "dataset" -> r = "acceptor" [] OTHER -> TRUE
+                   [] p = "dimse_rsp" -> r = "requestor" [] p = "dataset" -> r = "acceptor"
+                   [] p = "release_collision" -> r = "requestor" [] OTHER -> TRUE
 Cuts == {"boundary", "header", "body"}      \* where the peer stops: between PDUs, inside the 6-byte header, inside the body
 Styles == {"silence", "dribble", "flood"}   \* flood: complete PDUs (ignored in Sta13) keep arriving, the connection is never closed
 ScenarioOK(r, p, c, st) == /\ PhaseOK(r, p)
                            /\ (st = "flood" => p = "closing")
                            /\ (p \in {"closing", "tls"} => c = "boundary" /\ st # "dribble")
                            /\ (p = "tls" => st = "silence")
+                           /\ (p = "release_collision" => c = "boundary" /\ st = "silence")
 
 VARIABLES role, phase, cut, style,   \* the scenario
           prov,      \* provider thread: "loop" | "recv" (blocked in AssociationSocket.recv) | "done"
